@@ -3,7 +3,18 @@ import spawnprops
 
 def run(chk, tier):
     spawnprops.run(chk, tier, "C07")
+    # the same clause where the process that cannot be created is a command of a pipeline
+    import pipeprops
+    pipeprops.c07_pipelines(chk, tier)
 
 
 def replay(chk, path):
+    lines = [l.rstrip("\n") for l in open(path, encoding="utf-8") if l.strip() and not l.startswith("#")]
+    if lines and lines[0].strip() == "pipeline":
+        import pipeprops
+        import common as C
+        chk.obligations(C.props_check("C07", spawnprops.DEPS))
+        C.build_harness()
+        pipeprops.c07_pipelines(chk, "quick", explicit=[pipeprops.tpl_from_json(lines[1])])
+        return
     spawnprops.replay(chk, path, "C07")
